@@ -937,3 +937,75 @@ def rule_ITER1(ctx):
         r.constructs.add(f.key)
     r.ok('census', {'instance': 'iterable-consuming try blocks', 'count': n})
     return r
+
+
+# ---------------------------------------------------------------------------------------------- BYTEWIN
+def rule_BYTEWIN(ctx):
+    """A byte-level search (bytes.find / rfind on the tobytes() of a bit window) sees only whole bytes, and tobytes() pads a
+    partial last byte with zeros.  The window handed to it must therefore lie inside [start, end) on byte boundaries:
+    lower bound = ceil(start / 8) * 8, upper bound = floor(end / 8) * 8.  Any other bound lets a match begin before start,
+    reach past end, or match the zero padding."""
+    m = ctx.m
+    r = RuleResult('BYTEWIN', 'byte-level searches run on a window rounded inwards to byte boundaries (ceil for the start, floor for the end)')
+    n = 0
+    for f in m.funcs.values():
+        if f.mod == '__main__':
+            continue
+        defs = {}
+        for x in own_walk(f.node):
+            if isinstance(x, ast.Assign) and len(x.targets) == 1 and isinstance(x.targets[0], ast.Name):
+                defs.setdefault(x.targets[0].id, []).append(x.value)
+        tb = [x for x in own_walk(f.node) if isinstance(x, ast.Call) and isinstance(x.func, ast.Attribute) and x.func.attr == 'tobytes'
+              and isinstance(x.func.value, ast.Subscript) and isinstance(x.func.value.slice, ast.Slice)]
+        for x in own_walk(f.node):
+            if isinstance(x, ast.Call) and isinstance(x.func, ast.Attribute) and x.func.attr == 'tobytes':
+                n += 1
+        if not tb:
+            continue
+        # is the byte string searched?  (directly, or through the local it is assigned to)
+        for t in tb:
+            holder = [k for k, vs in defs.items() if any(t is y for v in vs for y in ast.walk(v))]
+            searched = any(isinstance(y, ast.Call) and isinstance(y.func, ast.Attribute) and y.func.attr in ('find', 'rfind', 'index', 'rindex', 'count')
+                           and (any(t is z for z in ast.walk(y.func.value)) or (isinstance(y.func.value, ast.Name) and y.func.value.id in holder))
+                           for y in own_walk(f.node))
+            if not searched:
+                r.ok(f'{f.key}:{norm(t)}', trivial=True)
+                continue
+            sl = t.func.value.slice
+
+            def rounding(bound):
+                """'ceil' / 'floor' / 'zero' / None for a bound of the form N * 8 with N = (X + 7) // 8 or X // 8."""
+                if bound is None or (isinstance(bound, ast.Constant) and bound.value == 0):
+                    return 'zero'
+                if not (isinstance(bound, ast.BinOp) and isinstance(bound.op, ast.Mult)):
+                    return None
+                a, b = bound.left, bound.right
+                if isinstance(a, ast.Constant):
+                    a, b = b, a
+                if not (isinstance(b, ast.Constant) and b.value == 8):
+                    return None
+                cands = defs.get(a.id, []) if isinstance(a, ast.Name) else [a]
+                kinds = set()
+                for v in cands:
+                    if isinstance(v, ast.BinOp) and isinstance(v.op, ast.FloorDiv) and isinstance(v.right, ast.Constant) and v.right.value == 8:
+                        num = v.left
+                        if isinstance(num, ast.BinOp) and isinstance(num.op, ast.Add) and isinstance(num.right, ast.Constant) and num.right.value == 7:
+                            kinds.add('ceil')
+                        elif isinstance(num, (ast.Name, ast.Attribute)):
+                            kinds.add('floor')
+                        else:
+                            kinds.add('?')
+                    else:
+                        kinds.add('?')
+                return kinds.pop() if len(kinds) == 1 else None
+            lo, hi = rounding(sl.lower), rounding(sl.upper)
+            if lo in ('ceil', 'zero') and hi == 'floor':
+                r.ok(f'{f.key}:{norm(t)}', {'instance': f.key, 'window': norm(t.func.value)[:80], 'lower': lo, 'upper': hi})
+            else:
+                r.fail(f.key, t, f'the byte-level search runs on {norm(t.func.value)[:70]}: its lower bound is '
+                       f"{'rounded up to a byte' if lo == 'ceil' else 'not rounded up to a byte boundary'} and its upper bound is "
+                       f"{'rounded down to a byte' if hi == 'floor' else 'not rounded down to a byte boundary'}; a partial last byte is zero-padded by "
+                       'tobytes(), so matches can reach past the end of the window (or into the padding)', loc=f.loc(t))
+    if n < 3:
+        raise AnalysisError(f'only {n} tobytes() calls found in the package (floor 3)')
+    return r
